@@ -21,12 +21,12 @@ type zeroChooser struct{}
 func (zeroChooser) intn(int) int { return 0 }
 
 type renderer struct {
-	ch      chooser
-	out     []byte
-	types   []string
-	classes []hclass
-	nchoice int // number of binary-or-wider choices actually offered (for the evidence)
-	varied  int // number of choices where a non-canonical alternative was taken
+	ch              chooser
+	out             []byte
+	types           []string
+	classes         []hclass
+	nchoice         int // number of binary-or-wider choices actually offered (for the evidence)
+	varied          int // number of choices where a non-canonical alternative was taken
 	usedCompactDate bool
 }
 
